@@ -36,6 +36,7 @@ def regen(ctx):
     import x_c01_tables as xt
     importlib.reload(xt)
     ctx.regen("Bee2V/Gen/C01Tables.lean", xt.generate())
+    ctx.regen("Bee2V/Gen/C01Fmt.lean", xt.generate_fmt())
 
 
 # ------------------------------------------------------------------ generator helpers
@@ -987,7 +988,16 @@ def run(ctx):
         regen(ctx)
     except Exception as e:
         translator_error = "%s: %s" % (type(e).__name__, e)
-    proof_ok, log = (False, "translator: " + translator_error) if translator_error else ctx.prove(["Bee2V.C01." + os.path.basename(p)[:-5] for p in PROPS], PROPS)
+    if translator_error:
+        proof_ok, log = False, "translator: " + translator_error
+    else:
+        # stage 1 (seconds): a few rows of the FMT block-count table; if they fail the constants of beltFMTCalcB changed for
+        # the worse and the 21 table modules (~1 CPU-hour) are not rebuilt -- the proofs are reported as broken right away
+        ok_c, log_c = ctx.lake_build(["Bee2V.C01.Lemmas.FmtCanary"])
+        if not ok_c:
+            proof_ok, log = ctx.prove(["Bee2V.C01.Lemmas.FmtCanary"], PROPS)
+        else:
+            proof_ok, log = ctx.prove(["Bee2V.C01." + os.path.basename(p)[:-5] for p in PROPS], PROPS)
     have_driver = os.path.exists(ctx.driver())
     mism_all = []
     cov = {}
